@@ -383,7 +383,6 @@ Proof.
     apply hsend; auto.
     cbn [scan emit body]. unfold scan1. cbn [Z.eqb]. rewrite Ev. destruct req; reflexivity.
   - (* ORequestAuth *)
-    subst wf.
     destruct (closed (io (ea s)) || negb (g13 s) || is_cl (cf (ea s)) || negb (pha_sup (cf (ea s)))) eqn:Ec; cbn [fst]; [exact Hh|].
     apply orb_false_iff in Ec. destruct Ec as [Ec Eps]. apply orb_false_iff in Ec. destruct Ec as [Ec Ecl].
     apply orb_false_iff in Ec. destruct Ec as [_ Ev]. apply negb_false_iff in Ev, Eps.
